@@ -308,7 +308,7 @@ func RunCase(seed uint64, idx int, p *Profile, o *Opts, st *Stats) (cr *CaseResu
 		if twin != nil && !skipped {
 			// (calls guarded only by the debug build - use of a finished query and the like - may depend on component IDs,
 			// e.g. on which component has ID 0: worlds with different IDs need not agree on them)
-			if resB.Panicked != res.Panicked && !(x.Either && o.Twin == "shared") {
+			if resB.Panicked != res.Panicked && !(x.Either && o.Twin == "shared") && !(op.K == KMisuse && o.Twin == "unsafe") { // (the ID-based twin does not execute misuse rows)
 				twin.viol("C14", "twin-panic", "twin worlds disagree on panic for %s: A=%v (%v) B=%v (%v)", op, res.Panicked, res.PanicVal, resB.Panicked, resB.PanicVal)
 				stop = true
 			}
